@@ -43,18 +43,19 @@ theorem finish {N : Nat} {d : Cfg} {m : QEv} {rp : Option Nat} {t rest : Sk} {st
     (hkt : isTaskKind m.kind = true → rp = some m.id)
     (hrest : rest = .done ∨ (rest.isVisit = true ∧ FlatK (.visit rest stack false none)))
     (cX : Cfg) (fuel : Nat) {acts : List Act} {v' : Vol}
-    (hadv : advance Quirks.none cX (fuel + 2) m.id rest stack none rp d.vol = (acts, v')) :
+    (hadv : advance Quirks.none cX (fuel + 2) m.id rest stack none rp d.vol = (acts, v')) (hcX : cX.deadJ = []) :
     PInv N ((acts.foldl Cfg.act d).withVol v') ∧ mu2 ((acts.foldl Cfg.act d).withVol v') ≤ mu2 d := by
   have hxin : (m.id, m.kind) ∈ evK d := mem_evK hm
+  have hndd : notDead cX d.vol := ⟨h.join.alive, hcX⟩
   have hfk := h.dur.kinds _ hxin
   obtain ⟨l1, l2, he, h1, h2⟩ := split_of_mem hm (by rw [← evK_ids]; exact h.dur.ids)
   rcases hrest with rfl | ⟨hv, hflat⟩
   · -- the sequence is over
     cases stack with
     | nil =>
-      rw [advance_done_top] at hadv
-      obtain ⟨rfl, rfl⟩ := Prod.mk.inj hadv
       have hstk : evStack m.kind = [] := by rw [hk]; rfl
+      rw [advance_done_top _ _ _ _ _ _ (top_alone h hm hstk).2] at hadv
+      obtain ⟨rfl, rfl⟩ := Prod.mk.inj hadv
       have := fin_end h hm hu hstk (by rw [hk]; simpa [todoOf, tasksIn] using htk)
       rw [foldl_withVol_self]
       exact this
@@ -72,7 +73,7 @@ theorem finish {N : Nat} {d : Cfg} {m : QEv} {rp : Option Nat} {t rest : Sk} {st
       have hmc : f.mc = 0 := hwf.1.1.1
       have hfr : f.rest.flat = true := hwf.1.2
       by_cases hlt : (joinAfter d.joins f m.id rp).filled.length < f.width
-      · have hh := advance_hold cX (fuel + 1) m.id f rp d.vol hmc hlt
+      · have hh := advance_hold cX (fuel + 1) m.id f rp d.vol hndd hmc hlt
         rw [hh] at hadv
         obtain ⟨rfl, rfl⟩ := Prod.mk.inj hadv
         exact fin_hold h hm hu hstk (hlastv rfl (by simp)) hkt hlt
@@ -80,11 +81,11 @@ theorem finish {N : Nat} {d : Cfg} {m : QEv} {rp : Option Nat} {t rest : Sk} {st
         have hfr' : f.rest = .done ∨ f.rest.isVisit = true := by
           cases hr : f.rest <;> simp [hr, Sk.flat, Sk.isVisit] at hfr ⊢
         rcases hfr' with hd | hv
-        · have hh := advance_join_end cX fuel m.id f rp d.vol hge hd
+        · have hh := advance_join_end cX fuel m.id f rp d.vol hndd hge hd
           rw [hh] at hadv
           obtain ⟨rfl, rfl⟩ := Prod.mk.inj hadv
           exact fin_join_end h hm hu hstk (hlastv rfl (by simp)) hkt hge hd
-        · have hh := advance_join_next cX (fuel + 1) m.id f rp d.vol hge hv
+        · have hh := advance_join_next cX (fuel + 1) m.id f rp d.vol hndd hge hv
           rw [hh] at hadv
           obtain ⟨rfl, rfl⟩ := Prod.mk.inj hadv
           exact fin_join_next h hm hu hstk (hlastv rfl (by simp)) hkt hge hv
@@ -98,10 +99,22 @@ theorem finish {N : Nat} {d : Cfg} {m : QEv} {rp : Option Nat} {t rest : Sk} {st
     exact this
 
 
-theorem not_inDeadJoin {c : Cfg} (hj : JInv c) (v : Vol) (hv : v.joins = c.joins) (k : EvKind) : inDeadJoin v k = false := by
-  simp only [inDeadJoin, List.any_eq_false, Bool.and_eq_true, beq_iff_eq, not_and, Bool.not_eq_true, hv]
-  intro f _ j hjm _
-  exact hj.alive j hjm
+/-- no event of a flat skeleton is dropped: nothing is on record as over, and the terminal notification is not out while
+an event is in the queue -/
+theorem not_inDeadJoin {N : Nat} {c : Cfg} (h : PInv N c) (c1 : Cfg) (v : Vol) (hv : v.joins = c.joins)
+    (hn : c1.notes = c.notes) (hf : c1.failed = c.failed) (hd : c1.deadJ = c.deadJ) {m : QEv} (hm : m ∈ c.evq) :
+    inDeadJoin Quirks.none c1 v m = false := by
+  have hnd : notDead c1 v := ⟨by rw [hv]; exact h.join.alive, by rw [hd]; exact h.dur.nodead⟩
+  have hnotes : c1.notes = 0 := by rw [hn]; exact h.cons.psi1 (List.ne_nil_of_mem (mem_evK hm))
+  have hend : v.joins.any (fun j => j.ended) = false := by
+    rw [hv, List.any_eq_false]
+    intro j hj
+    simp [h.join.live j hj]
+  have hdj : (evJids m.kind).any (deadJid Quirks.none c1 v) = false := by
+    rw [List.any_eq_false]
+    intro j _
+    simp [deadJid_false hnd j]
+  simp [inDeadJoin, hdj, hend, hnotes, hf, h.dur.nofail]
 
 /-- the kinds of events of a flat skeleton -/
 theorem flatKind_inv {k : EvKind} (h : flatKind k = true) :
@@ -173,8 +186,9 @@ theorem pstep_ev {N : Nat} (c c' : Cfg) (id : Nat) (h : PInv N c)
     obtain ⟨n, hn⟩ : ∃ n, fuelOf { c with evq := l1 ++ m' :: l2 } = n + 2 := ⟨_, rfl⟩
     have hpre : ∀ o : Option Nat, o = none → (if start = true then [if o.isSome = true then Act.cnote false else Act.note false] else []) = preOf start := by
       intro o ho; subst ho; rfl
-    have hdead := not_inDeadJoin h.join ({ c with evq := l1 ++ m' :: l2 } : Cfg).vol rfl (EvKind.visit t stack start none)
-    simp only [hk, hdead, Bool.false_eq_true, if_false, hpre none rfl, hn] at hs
+    have hdead := not_inDeadJoin h ({ c with evq := l1 ++ m' :: l2 } : Cfg) ({ c with evq := l1 ++ m' :: l2 } : Cfg).vol rfl
+      rfl rfl rfl hm
+    simp only [hdead, Bool.false_eq_true, if_false, hk, hpre none rfl, hn] at hs
     have hm'in : m' ∈ ({ c with evq := l1 ++ m' :: l2 } : Cfg).evq := by simp
     rcases flat_cases hfk2 with rfl | ⟨rc, rest, rfl⟩ | ⟨rest, rfl⟩ | ⟨rest, rfl⟩ | ⟨mc, brs, rest, rfl, rfl⟩
     · -- an empty skeleton (or branch)
@@ -190,7 +204,7 @@ theorem pstep_ev {N : Nat} (c c' : Cfg) (id : Nat) (h : PInv N c)
         rw [← hid'] at hmid hadv
         have := finish (t := .done) (rest := .done) (stack := stack) (start := start) hmid (by simp) hu' (hk' ▸ hk)
           (by simp [tasksIn]) (by simp [Sk.isVisit]) (fun _ _ => by rw [hk', hk]; rfl) (by rw [hk', hk]; simp [isTaskKind])
-          (Or.inl rfl) _ n hadv
+          (Or.inl rfl) _ n hadv h.dur.nodead
         exact ⟨this.1, Nat.lt_of_le_of_lt this.2 hlt⟩
     · -- a Task
       cases rc with
@@ -226,7 +240,7 @@ theorem pstep_ev {N : Nat} (c c' : Cfg) (id : Nat) (h : PInv N c)
         have hsub := flatKind_rest hfk2 (Or.inr (Or.inl rfl))
         have := finish (t := .step rest) (rest := rest) (stack := stack) (start := start) hmid (by simp) hu' (hk' ▸ hk)
           (by simp [tasksIn]) (fun _ => by simp [visits]) (fun hr _ => by rw [hk', hk, hr]; rfl)
-          (by rw [hk', hk]; simp [isTaskKind]) (done_or_visit_of_flat hsub) _ n hadv
+          (by rw [hk', hk]; simp [isTaskKind]) (done_or_visit_of_flat hsub) _ n hadv h.dur.nodead
         exact ⟨this.1, Nat.lt_of_le_of_lt this.2 hlt⟩
     · -- a Wait: its timer is armed
       simp only [Option.some.injEq] at hs
@@ -269,7 +283,9 @@ theorem pstep_tm {N : Nat} (c c' : Cfg) (id : Nat) (h : PInv N c)
     have hfk2 : flatKind (.visit t stack start none) = true := hk ▸ hfk
     obtain ⟨n, hn⟩ : ∃ n, fuelOf c = n + 2 := ⟨_, rfl⟩
     have htk := h.vol.t_kind m hm hc
-    simp only [hk, hn] at hs
+    have hdead := not_inDeadJoin h c
+      { timers := c.timers.erase m.id, pending := c.vol.pending, orphans := c.vol.orphans, joins := c.vol.joins } rfl rfl rfl rfl hm
+    simp only [hdead, Bool.and_false, Bool.false_eq_true, if_false, hk, hn] at hs
     suffices hgoal : PInv N c' ∧ mu2 c' < mu2 c from ⟨hgoal.1, fun _ => hgoal.2⟩
     have hvd : ({ c with timers := c.timers.erase m.id } : Cfg) = c.withVol
         { timers := c.timers.erase m.id, pending := c.vol.pending, orphans := c.vol.orphans, joins := c.vol.joins } := rfl
@@ -299,7 +315,7 @@ theorem pstep_tm {N : Nat} (c c' : Cfg) (id : Nat) (h : PInv N c)
         have hsub := flatKind_rest hfk2 (Or.inr (Or.inr rfl))
         have := finish (t := .wait rest) (rest := rest) (stack := stack) (start := start) hmid hm hu hk
           (by simp [tasksIn]) (fun _ => by simp [visits]) (fun hr _ => by rw [hk, hr]; rfl)
-          (by rw [hk]; simp [isTaskKind]) (done_or_visit_of_flat hsub) c n hadv
+          (by rw [hk]; simp [isTaskKind]) (done_or_visit_of_flat hsub) c n hadv h.dur.nodead
         rw [hvd, foldl_withVol] at this
         exact ⟨this.1, Nat.lt_of_le_of_lt this.2 (hvd ▸ hlt)⟩
     · -- a Parallel / Map state
@@ -322,7 +338,7 @@ theorem pstep_tm {N : Nat} (c c' : Cfg) (id : Nat) (h : PInv N c)
             exact hfk2.2
           have := finish (t := .par mc .nil rest) (rest := rest) (stack := []) (start := start) hmid hm hu hk
             (by simp [tasksIn, brTasks]) (fun _ => by simp [visits, brVisits]) (fun _ hne => absurd rfl hne)
-            (by rw [hk]; simp [isTaskKind]) (done_or_visit_of_flat hsub) c n hadv
+            (by rw [hk]; simp [isTaskKind]) (done_or_visit_of_flat hsub) c n hadv h.dur.nodead
           rw [hvd, foldl_withVol] at this
           exact ⟨this.1, Nat.lt_of_le_of_lt this.2 (hvd ▸ hlt)⟩
       · -- its branches are launched
@@ -395,7 +411,7 @@ theorem pstep_rp {N : Nat} (c c' : Cfg) (corr : Nat) (h : PInv N c)
         have hsub := flatKind_rest hfk2 (Or.inl ⟨rc, rfl⟩)
         have := finish (t := .task rc rest) (rest := rest) (stack := stack) (start := start) hmid hm hu hkk
           (by simp [tasksIn]) (fun _ => by simp [visits]) (fun hr _ => by rw [hkk, hr]; rfl)
-          (fun _ => rfl) (done_or_visit_of_flat hsub) _ n hadv
+          (fun _ => rfl) (done_or_visit_of_flat hsub) _ n hadv h.dur.nodead
         have hvd : ({ c with rpq := k1 ++ r' :: k2, pending := c.pending.erase m.id } : Cfg) =
             ({ c with rpq := k1 ++ r' :: k2 } : Cfg).withVol
               { timers := c.timers, pending := c.pending.erase m.id, orphans := c.orphans, joins := c.joins } := rfl
@@ -448,7 +464,7 @@ theorem pstep_tick {N : Nat} (c c' : Cfg) (h : PInv N c)
       have hsub := flatKind_rest hfk2 (Or.inl ⟨rc, rfl⟩)
       have := finish (t := .task rc rest) (rest := rest) (stack := stack) (start := start) hmid hm hu hkk
         (by simp [tasksIn]) (fun _ => by simp [visits]) (fun hr _ => by rw [hkk, hr]; rfl)
-        (fun _ => rfl) (done_or_visit_of_flat hsub) c n hadv
+        (fun _ => rfl) (done_or_visit_of_flat hsub) c n hadv h.dur.nodead
       have hvd : ({ c with orphans := c.orphans.erase m.id, pending := c.pending.erase m.id } : Cfg) =
           c.withVol { timers := c.timers, pending := c.pending.erase m.id, orphans := c.orphans.erase m.id, joins := c.joins } := rfl
       rw [hvd, foldl_withVol] at this
@@ -515,9 +531,11 @@ theorem pcanon_enabled {N : Nat} (c : Cfg) (h : PInv N c) (op : Op) (hop : nextO
     have hfk2 : flatKind (.visit tt stack start none) = true := hk ▸ hfk
     have htk := h.vol.t_kind m hm (hid ▸ hc)
     have hc' : (!c.timers.contains t) = false := by simp [hc]
+    have hdead := not_inDeadJoin h c
+      { timers := c.timers.erase t, pending := c.vol.pending, orphans := c.vol.orphans, joins := c.vol.joins } rfl rfl rfl rfl hm
     unfold step
     rw [if_neg (by simp [hnd])]
-    simp only [hc', Bool.false_eq_true, if_false, hf, hk]
+    simp only [hc', Bool.false_eq_true, if_false, hf, hdead, Bool.and_false, hk]
     rcases flat_cases hfk2 with rfl | ⟨rc, rest, rfl⟩ | ⟨rest, rfl⟩ | ⟨rest, rfl⟩ | ⟨mc, brs, rest, rfl, rfl⟩
     · rw [hk] at htk; simp [timerKind] at htk
     · exact ⟨_, rfl⟩
@@ -537,10 +555,10 @@ theorem pcanon_enabled {N : Nat} (c : Cfg) (h : PInv N c) (op : Op) (hop : nextO
       have hfk : flatKind m.kind = true := h.dur.kinds _ (mem_evK hmm)
       obtain ⟨tt, stack, start, hk, _⟩ := flatKind_inv hfk
       have hfk2 : flatKind (.visit tt stack start none) = true := hk ▸ hfk
-      have hdead := not_inDeadJoin h.join (markEv c m.id).vol rfl (EvKind.visit tt stack start none)
+      have hdead := not_inDeadJoin h (markEv c m.id) (markEv c m.id).vol rfl rfl rfl rfl hmm
       unfold step
       rw [if_neg (by simp [hnd])]
-      simp only [hf, hk, hdead, Bool.false_eq_true, if_false]
+      simp only [hf, hdead, Bool.false_eq_true, if_false, hk]
       rcases flat_cases hfk2 with rfl | ⟨rc, rest, rfl⟩ | ⟨rest, rfl⟩ | ⟨rest, rfl⟩ | ⟨mc, brs, rest, rfl, rfl⟩
       · exact ⟨_, rfl⟩
       · simp only; split <;> exact ⟨_, rfl⟩
